@@ -7,6 +7,20 @@ TB_COMMON = [
     "sequential consistency: interleavings of atomic steps; recorded memory orderings are compared with the model's annotation but no weak-memory behaviour is modelled",
 ]
 
+# ---- C06 / C07 (channels): shared by both entries
+CH_TB = [
+    "the inner queues (may_queue mpsc/spsc, crossbeam SegQueue) are atomic FIFOs at this layer (C03 is its own check; SegQueue by contract)",
+    "ThreadPark is replaced by the controller's virtual token in det mode; a Blocker is the binary token of C02",
+    "the strong count of Arc<InnerQueue> is not hooked: its decrement is folded into the last hooked step of a handle's drop (exact in det mode)",
+    "rustc drops a value exactly once when its owner goes out of scope (the receiving caller, SendError, the queue's Drop)",
+]
+CH_ASSUME = [
+    "fair scheduling for the wake-up / disconnect theorems (quiescence form: nobody mid-operation => a parked receiver holds its token)",
+    "thread endpoints in det mode; the coroutine endpoints (Blocker = Park, spsc's own Park path) are in the models but not replayed yet",
+]
+CH_RULE = "det mode: 2-5 threads, seeded op lists (send / clone / drop of Senders, try_recv / recv / recv_timeout with virtual time-outs, drain or early drop of Receivers; a gated variant keeps every Sender alive until the receiver has got everything, so that a lost wake-up shows as a deadlock), seeded random schedules with stickiness; distinct = SHA-1 of the canonical trace"
+# ---- end C06 / C07 constants
+
 PROPS = {
     "C01": dict(
         lean_props=["MayVerif.Props.C01"],
@@ -76,5 +90,23 @@ PROPS = {
             "SyncFlag: fewer than isize::MAX actors (concurrent waits), stated as hypothesis n < MAXI of syncflag_latch",
         ],
         rule="det mode: 2-5 threads x 1-6 operations (sem: wait / wait_timeout / try_wait / post / get_value, init 0..3; syncflag: fire / wait / wait_timeout / is_fired), virtual time-outs fired by the controller (120 per mille), seeded random schedules with stickiness; non-trivial = at least one waiter registered (q.push in the trace); distinct = SHA-1 of the canonical trace",
+    ),
+    "C06": dict(
+        lean_props=["MayVerif.Props.C06"],
+        families=[
+            dict(mode="det", name="ch_mpsc", quick=600, thorough=12000, nontrivial=r" q\.push (.|\n)* q\.pop "),
+        ],
+        trusted_base=TB_COMMON + CH_TB,
+        assumptions=CH_ASSUME,
+        rule=CH_RULE,
+    ),
+    "C07": dict(
+        lean_props=["MayVerif.Props.C07"],
+        families=[
+            dict(mode="det", name="ch_mpsc", quick=600, thorough=12000, nontrivial=r" (load|fetch_sub) \S+ \S+ [01] 2 |park_enter"),
+        ],
+        trusted_base=TB_COMMON + CH_TB,
+        assumptions=CH_ASSUME,
+        rule=CH_RULE,
     ),
 }
